@@ -34,6 +34,7 @@ Definition EFilterRef : N := 41.    Definition ECollection : N := 42.
 
 Record lib := {
   uuid_ok : str -> bool;      (* uuid.UUID(s) does not raise ValueError *)
+  uuid_key : str -> N;        (* int(uuid.UUID(s)) when it does not: two spellings of one UUID are one key *)
   int_ok : str -> bool;       (* int(s) does not raise ValueError *)
   re_ok : str -> bool;        (* re.compile(s) does not raise re.error *)
   cidr_ok : str -> bool;      (* ipaddress.ip_network(s) does not raise ValueError *)
